@@ -11,8 +11,8 @@ set_option linter.unusedSimpArgs false
 set_option linter.unusedVariables false
 
 /-- no clean-up step has removed a foreign entry so far -/
-theorem stolen_step {c σ a σ'} (h : step c σ a = some σ') (B : InvBound σ) (L : InvLocal σ) (T : InvStamp σ)
-    (U : InvUnreg σ) (C : InvC σ) (A : InvA σ) (hs : σ.stolen = []) : σ'.stolen = [] := by
+theorem stolen_step {c σ a σ'} (h : step c σ a = some σ') (hc2 : c.secondDelete = false) (B : InvBound σ) (L : InvLocal σ)
+    (T : InvStamp σ) (C : InvC σ) (A : InvA σ) (hs : σ.stolen = []) : σ'.stolen = [] := by
   cases a with
   | sUnregCheck i =>
     step_inv h
@@ -28,8 +28,8 @@ theorem stolen_step {c σ a σ'} (h : step c σ a = some σ') (B : InvBound σ) 
     · simpa using hs
   | sUnregAgain i =>
     step_inv h
-    rename_i hi
-    exact steal_stolen_nil (by simpa using hs) (Or.inl (by rw [U i hi]; rfl))
+    · rename_i hsd; rw [hc2] at hsd; cases hsd
+    · simpa using hs
   | rRmOwnCancel i =>
     step_inv h
     rename_i hi
@@ -99,27 +99,19 @@ theorem invU_step {c σ a σ'} (h : step c σ a = some σ') (I : InvU σ) : InvU
 theorem invU_run (c : Cfg) (acts : List Act) : InvU (run c State.init acts) :=
   run_induct (H := fun _ _ => True) (fun _ _ _ h _ I => invU_step h I) acts State.init invU_init (along_true c acts State.init)
 
-/-- the invariants behind "no crash", under `ReplayOK` -/
-structure InvCrash (σ : State) : Prop where
-  u : InvU σ
-  reg : InvReg σ
-  ok : σ.crashed = false
-
-theorem invCrash_run {c : Cfg} (hd : c.deliverRecover = true) (hb : c.bcastRecover = true) (acts : List Act)
-    (H : Along c ReplayOK State.init acts) : InvCrash (run c State.init acts) :=
-  run_induct (H := ReplayOK)
-    (fun _ _ _ h hy I => ⟨invU_step h I.u, invReg_step h hy I.u.bound I.reg,
-      noCrash_step h hd hb hy I.u.send I.u.closed I.reg I.ok⟩)
-    acts State.init ⟨invU_init, fun _ h => by simp [inc_init] at h, rfl⟩ H
+/-- no run of a tree with `recover` at every send site crashes -/
+theorem noCrash_run {c : Cfg} (hd : c.deliverRecover = true) (hb : c.bcastRecover = true) (hr : c.replayRecover = true)
+    (acts : List Act) : (run c State.init acts).crashed = false :=
+  run_induct (H := fun _ _ => True) (I := fun σ => σ.crashed = false)
+    (fun _ _ _ h _ I => noCrash_step h hd hb hr I) acts State.init rfl (along_true c acts State.init)
 
 /-- the hypotheses behind "clean-up removes only its own entries" -/
-def OwnHyp (σ : State) (a : Act) : Prop := StampsOK σ a ∧ UnregOK σ a ∧ RecvOK σ a
+def OwnHyp (σ : State) (a : Act) : Prop := StampsOK σ a ∧ RecvOK σ a
 
 structure InvOwn (σ : State) : Prop where
   u : InvU σ
   loc : InvLocal σ
   stamp : InvStamp σ
-  unreg : InvUnreg σ
   serial : InvSerial σ
   c : InvC σ
   j : InvJ σ
@@ -129,22 +121,21 @@ structure InvOwn (σ : State) : Prop where
 theorem invOwn_init : InvOwn State.init :=
   ⟨invU_init, fun _ _ _ h => by simp [State.init, aget] at h,
    fun i _ hi _ _ _ _ _ => by simp [State.init] at hi,
-   fun _ h => by simp [inc_init] at h,
    fun i _ hi _ _ _ _ _ => by simp [State.init] at hi,
    fun _ h => by simp [inc_init] at h,
    fun _ _ _ _ h _ _ => by simp [inc_init] at h,
    fun _ h => by simp [inc_init] at h, rfl⟩
 
-theorem invOwn_step {c σ a σ'} (h : step c σ a = some σ') (hc : c.cleanupUnconditional = false) (hy : OwnHyp σ a)
-    (I : InvOwn σ) : InvOwn σ' :=
+theorem invOwn_step {c σ a σ'} (h : step c σ a = some σ') (hc : c.cleanupUnconditional = false) (hc2 : c.secondDelete = false)
+    (hy : OwnHyp σ a) (I : InvOwn σ) : InvOwn σ' :=
   ⟨invU_step h I.u, invLocal_step h I.u.bound I.loc, invStamp_step h hy.1 I.u.bound I.stamp,
-   invUnreg_step h hy.2.1 I.u.bound I.unreg, invSerial_step h hc hy.2.2 I.serial,
+   invSerial_step h hc hy.2 I.serial,
    invC_step h hc I.u.bound I.serial I.j I.c, invJ_step h I.u.bound I.serial I.c I.j,
    invA_step h hc I.u.bound I.serial I.j I.a,
-   stolen_step h I.u.bound I.loc I.stamp I.unreg I.c I.a I.clean⟩
+   stolen_step h hc2 I.u.bound I.loc I.stamp I.c I.a I.clean⟩
 
-theorem invOwn_run {c : Cfg} (hc : c.cleanupUnconditional = false) (acts : List Act)
+theorem invOwn_run {c : Cfg} (hc : c.cleanupUnconditional = false) (hc2 : c.secondDelete = false) (acts : List Act)
     (H : Along c OwnHyp State.init acts) : InvOwn (run c State.init acts) :=
-  run_induct (H := OwnHyp) (fun _ _ _ h hy I => invOwn_step h hc hy I) acts State.init invOwn_init H
+  run_induct (H := OwnHyp) (fun _ _ _ h hy I => invOwn_step h hc hc2 hy I) acts State.init invOwn_init H
 
 end S2S.Registry
